@@ -1,5 +1,53 @@
-from vlib import native
+import os, re
+from vlib import native, core
 W = (1, 2, 3, 4)
+WCDIR = os.path.join(core.BUILD, "C08", "writechar")
+
+
+def extract_writechar():
+    """Cut the character branch out of sexp_write_one (sexp.c of the current tree).  Must-fire rules:
+    the function header, exactly one `} else if (sexp_charp(obj)) {` inside it, balanced braces,
+    the declarations of i and c the harness repeats."""
+    src = open(core.repo_file("sexp.c")).read()
+    m = re.search(r"^sexp sexp_write_one \(sexp ctx, sexp obj, sexp out, sexp_sint_t bound\) \{$", src, re.M)
+    if not m:
+        raise core.Undecided("must-fire: sexp_write_one header not found in sexp.c")
+    end = re.search(r"^\}$", src[m.end():], re.M)
+    body = src[m.end():m.end() + end.start()]
+    heads = list(re.finditer(r"^  \} else if \(sexp_charp\(obj\)\) \{$", body, re.M))
+    if len(heads) != 1:
+        raise core.Undecided("must-fire: character branch of sexp_write_one found %d times" % len(heads))
+    i = heads[0].end(); depth = 1
+    while depth and i < len(body):
+        depth += {"{": 1, "}": -1}.get(body[i], 0); i += 1
+    if depth:
+        raise core.Undecided("must-fire: unbalanced braces in the character branch")
+    blk = body[heads[0].end():i - 1]
+    blk = re.sub(r"\n#if [A-Z_ &|!]+\n\s*$", "\n", blk)     # the #if that guards the NEXT branch
+    if re.search(r"^#(if|else|endif)", blk, re.M) or "sexp_unbox_character(obj)" not in blk:
+        raise core.Undecided("must-fire: character branch of sexp_write_one has an unexpected shape")
+    if not re.search(r"^  sexp_uint_t len, c;$", body, re.M) or not re.search(r"^  sexp_sint_t i=0, j, k;$", body, re.M):
+        raise core.Undecided("must-fire: declarations of c / i in sexp_write_one changed")
+    os.makedirs(WCDIR, exist_ok=True)
+    core._write_if_changed(os.path.join(WCDIR, "writechar_block.inc"), blk + "\n")
+
+
+def prepare(tier):
+    extract_writechar()
+
+
+def replay_write(spec, inputs, workdir):
+    c = int(inputs.get("in_c", "0"))
+    code = r"""
+#include "chibi/eval.h"
+int main(void){ sexp ctx = sexp_make_eval_context(NULL, NULL, NULL, 0, 0);
+  sexp s = sexp_write_to_string(ctx, sexp_make_character(%d));
+  sexp r = sexp_read_from_string(ctx, sexp_string_data(s), -1);
+  printf("(write (integer->char %d)) => %%s ; read back: %%s %%ld\n", sexp_string_data(s), sexp_charp(r) ? "char" : "not a char", sexp_charp(r) ? (long)sexp_unbox_character(r) : -1L);
+  return (sexp_charp(r) && sexp_unbox_character(r) == %d) ? 0 : 1; }
+""" % (c, c, c)
+    rc, o = native.run_driver(workdir, "replay_write", code)
+    return rc == 1, o
 
 
 def replay_decode(spec, inputs, workdir):
@@ -24,6 +72,13 @@ GROUPS = [
   "unwind": 8, "stubs": ["sexp_user_exception", "sexp_buffered_read_char"], "stub_src": ["harness/stubs.c", "harness/C08/stubs.c"],
   "min_obligations": 10,
   "instances": [{"name": "w%d" % w, "defs": {"W": w}} for w in W]},
+ {"name": "write_char", "label": "proved", "harness": "harness/C08/writechar.c", "entry": "h_write_char", "flags": ["-I@BUILD@/C08/writechar"],
+  "functions": ["sexp.c:sexp_write_one (character branch, extracted on every run)", "sexp.c:hex_digit"],
+  "unwind": 26, "min_obligations": 6, "replay": replay_write, "timeout": 300, "mem_gb": 4,
+  "bound": "none: every scalar value 0..0x10FFFF; loops over the 9-entry name table and the <= 21-character text are fully unwound (unwinding assertions on)",
+  "assumptions": ["the block is cut out of sexp_write_one mechanically; sexp_write_char / sexp_write_string are recording stubs (port layer not covered)",
+                  "the reader's rule for #\\ literals (sexp_read_raw: one character / x + hex digits via sexp_read_number / name table) is restated in the harness as the specification; the reader itself is covered by decode_literal and C04 read_number_digits only"],
+  "instances": [{"name": "all_scalars"}]},
 ]
 META = {
  "not_covered": ["number and float text (libc snprintf/strtod decide it)", "datum labels, lists, vectors, bytevectors (sexp_write_one / sexp_read_raw are 400-line port-driven functions outside the verifier's reach)",
